@@ -20,11 +20,12 @@ package service
 //@   ensures* kept: len(result) >= len(s) && len(result) <= len(s) + 1 && (forall i int :: 0 <= i && i < len(s) ==> result[i] == old(s[i]))
 //@   ensures new.entry: len(result) == len(s) + 1 ==> result[len(s)] == d
 //@   ensures array: (result.arr == s.arr && result.off == s.off) || fresh(result)
-//@   loop 1 invariant scan: !found && (forall i int :: 0 <= i && i <= rangeindex ==> s[i].SchemeName != d.SchemeName)
+//@   loop 1 invariant scan: !found && (forall i int :: 0 <= i && i <= rangeidx(1) ==> s[i].SchemeName != d.SchemeName)
 //@   modifies elems(s)
 
 //@ func buildMethodData
 //@   params m scope
+//@   locals vname:string desc:string payloadName:string payloadLoc:*codegen.Location payloadDef:string payloadRef:string payloadDesc:string payloadEx:any rname:string resultLoc:*codegen.Location resultDef:string resultRef:string resultDesc:string resultEx:any errors:[]*service.ErrorInitData errorLocs:map[string]*codegen.Location reqs:service.RequirementsData schemes:service.SchemesData dt:expr.UserType ok:bool dt#2:expr.UserType ok#2:bool i:int er:*expr.ErrorExpr req:*expr.SecurityExpr rs:service.SchemesData httpMet:*expr.HTTPEndpointExpr httpSvc:*expr.HTTPServiceExpr s:*expr.SchemeExpr sch:*service.SchemeData data:*service.MethodData
 //@   opt forget-before-loop 2
 //@   opt inline none
 //@   property C06
@@ -36,7 +37,7 @@ package service
 //@       modifies nothing
 //@   at fieldstore RequirementData.Schemes assert* all.schemes.of.the.requirement: forall j int :: 0 <= j && j < len(ranged(3)) ==> (exists k int :: 0 <= k && k < len(value) && value[k].SchemeName == ranged(3)[j].SchemeName)
 //@   at fieldstore RequirementData.Scopes assert* own.scopes: value == req.Scopes
-//@   loop 3 invariant covered: (rs.arr == 0 || rs.arr != schemes.arr) && ranged(3) == req.Schemes && (forall j int :: 0 <= j && j <= rangeindex#3 ==> (exists k int :: 0 <= k && k < len(rs) && rs[k].SchemeName == ranged(3)[j].SchemeName))
+//@   loop 3 invariant covered: (rs.arr == 0 || rs.arr != schemes.arr) && ranged(3) == req.Schemes && (forall j int :: 0 <= j && j <= rangeidx(3) ==> (exists k int :: 0 <= k && k < len(rs) && rs[k].SchemeName == ranged(3)[j].SchemeName))
 //@   loop 2 modifies elems(*SchemeData)
 //@   loop 2 modifies elems(*RequirementData)
 //@   loop 3 modifies elems(*SchemeData)
